@@ -38,10 +38,11 @@ Definition bp_translate (base : str) (o : op) : option op :=
   | _ => Some o
   end.
 
-(* BasePathFile.Name: strings.TrimPrefix(source name, filepath.Clean(path)) *)
+(* BasePathFile.Name: strings.TrimPrefix(source name, strings.TrimSuffix(filepath.Clean(path), "/")) *)
+Definition bp_name (base n : str) : str := trim_prefix n (trim_suffix_slash (clean base)).
 Definition bp_relabel (base : str) (o : op) (r : res) : res :=
   match o, r with
-  | HName _, RName n => RName (trim_prefix n (clean base))
+  | HName _, RName n => RName (bp_name base n)
   | _, _ => r
   end.
 
